@@ -65,6 +65,12 @@ def build(race=False):
     # the stream-map projection (Stream.tla conformance) exists only in trees that carry the verif-tagged file
     tags = ["-tags", "verif"] if os.path.exists(os.path.join(C.REPO, "pkg/otel/arrow_record/verif_on.go")) else []
     rc, out = C.sh(["go", "test", "-c", "-o", binp] + tags + (["-race"] if race else []) + ["."], cwd=mod, env=C.GOENV, timeout=1200)
+    if rc != 0 and tags:
+        # the projection file reads private fields of Producer / Consumer; a tree in which they were renamed does not build
+        # with the tag.  The checks then run without the projection (Stream.tla conformance is skipped, the domain rules
+        # fall back to their conservative forms); the black-box verdicts do not need it.
+        print("NOTE: the verif-tagged projection does not build against this tree; running without it")
+        rc, out = C.sh(["go", "test", "-c", "-o", binp] + (["-race"] if race else []) + ["."], cwd=mod, env=C.GOENV, timeout=1200)
     if rc != 0:
         raise C.Inconclusive("otap harness build failed:\n" + out[-4000:])
     return binp
